@@ -383,6 +383,23 @@ def obligations(tier, seed):
     for fn, b, viol, reach, bad in _builders(core):
         emit(f"prov:{fn}", "provenance", b, viol, reach, bad, f"{fn} builds the notification from exactly the subscription id and method name it is given (a message pre-built by the handler is passed through)",
              "every path", "builder:" + fn)
+    # servers generated by the rpc macro: each subscription is registered with its declared notification name (by default the subscribe name) - shared with C17
+    from . import C17 as _c17
+    f17 = R.bodies("fixture17")
+    for api in _c17.declarations():
+        if not any(it["kind"] == "subscription" for it in api["items"]):
+            continue
+        b, viol, reach, bad = _c17.registration_obligation(f17, api)
+        reach_l = R.live_reach(viol, reach, bad)
+        nm = f"registration:{api['trait']}:notification-names"
+        if bad or not all(reach_l):
+            out.append(R.Result(engine="mirsym", name=nm, kind="provenance", status="unsupported" if bad else "vacuous", detail=str(bad[:1])[:300], bodies=[b.name] if b is not None else []))
+        else:
+            q = [v if isinstance(v, z3.ExprRef) else z3.BoolVal(bool(v)) for v in viol]
+            out.append(R.decide(nm, "provenance", z3.Or(*q) if q else z3.BoolVal(False), [z3.Or(*v) for v in reach_l], bodies=[b.name],
+                                desc="the server generated by the rpc macro registers every subscription with its declared notification name - by default the subscribe method's name - and "
+                                     "unsubscribe name, so the sink's notifications carry that name", bounds="every path of into_rpc of the fixture traits with subscriptions (Alpha, Beta)",
+                                keydetail="registration:" + api["trait"], replay=dict(scenario="c17_roundtrip", vars={}, fixed={}, region=z3.BoolVal(True))))
     b, viol, reach, bad = _is_closed_kernel(core)
     emit("kernel:SubscriptionSink::is_closed", "kernel", b, viol, reach, bad,
          "the sink reports closed exactly when its connection is gone or its subscription was unsubscribed - either alone suffices",
